@@ -196,8 +196,13 @@ def gen_sequence(seed, n):
             label, raw, tk, cons = corr_cache.pop()
             steps.append({"cls": "corrupt/" + label.split(" ")[0], "raw": raw})
         elif roll < 0.90:
-            which = r.choice(["many-tags", "long-value", "long-name", "huge-value", "long-d", "many-items", "long-content", "long-multibyte", "long-multibyte", "near-key-limit", "near-key-limit"])
-            if which == "many-tags":
+            which = r.choice(["many-tags", "long-value", "long-name", "huge-value", "long-d", "many-items", "long-content", "long-multibyte", "long-multibyte", "near-key-limit", "near-key-limit",
+                              "odd-tag-values", "odd-tag-values"])
+            if which == "odd-tag-values":
+                # correctly signed, but the value of an indexable tag is not a string
+                odd = r.choice([["x"], {"a": 1}, 5, 1.5, True, None, [["x"]], []])
+                tags = [[r.choice(["t", "p", "e", "d"]), odd], ["t", "x"]]
+            elif which == "many-tags":
                 tags = [["t", "v%d" % j] for j in range(r.choice([100, 500, 2000]))]
             elif which == "long-value":
                 tags = [["t", "x" * r.choice([400, 480, 500, 600, 1000])]]
@@ -231,6 +236,11 @@ def gen_sequence(seed, n):
             if ev:
                 steps.append({"cls": "extreme/%s=%s" % (field, {2 ** 31 - 1: "2^31-1", 2 ** 31: "2^31", 2 ** 32 - 1: "2^32-1", 2 ** 32: "2^32", 2 ** 63 - 1: "2^63-1", 2 ** 63: "2^63"}.get(val, val)), "raw": ev})
                 prior.append((ev, key))
+    # every sequence: correctly signed events whose indexable tag carries a container instead of a string
+    for name, odd in ((r.choice(["t", "p"]), ["x", "wss://r"]), (r.choice(["e", "d"]), {"a": 1})):
+        key = r.choice(seeds.keys)
+        ev = ref.make_event(key, kind=1, created_at=gen.T0 + n + 1, tags=[[name, odd], ["t", "x"]], content=subm.token("odd"))
+        steps.insert(r.randrange(len(steps) + 1), {"cls": "big/odd-tag-values", "raw": ev})
     return steps
 
 
@@ -278,6 +288,8 @@ async def run_sequence(backend, steps, counters, seq_seed):
     try:
         watcher = rig.connect("watch")
         await watcher.cmd(["REQ", "w", {"since": 1}, {"until": 2 ** 31 - 2}, {"kinds": list(range(0, 10)) + [20000, 29999]}])
+        # subscriptions with tag conditions make live matching look INTO the tags of every accepted event
+        await watcher.cmd(["REQ", "w2", {"#t": ["cyc", "x", ""]}, {"#p": ["a"], "kinds": [1]}, {"#e": ["zz"]}, {"#d": ["a", "ab"]}])
         await rig.quiesce()
         conn = rig.connect("sub")
         prev = dump.dump(rig)
